@@ -167,7 +167,16 @@ def find_item(src, m, kind, name):
         else:
             start = s
         if kind in ('const', 'type', 'static'):
-            e = m.find(';', mt.end())
+            depth, e = 0, mt.end()
+            while e < len(m):
+                ch = m[e]
+                if ch in '([{':
+                    depth += 1
+                elif ch in ')]}':
+                    depth -= 1
+                elif ch == ';' and depth == 0:
+                    break
+                e += 1
             return start, e + 1
         # struct / enum: either `{..}` or `(..);` or `;`
         j = mt.end()
